@@ -5,6 +5,7 @@ package caldav
 
 import (
 	"fmt"
+	"io"
 	"time"
 
 	"github.com/emersion/go-ical"
@@ -13,6 +14,18 @@ import (
 )
 
 var CapabilityCalendar = webdav.Capability("calendar-access")
+
+// decodeCalendar reads one iCalendar object. The go-ical decoder panics on
+// some malformed content lines (e.g. a line ending inside a parameter);
+// such input is reported as a decoding error.
+func decodeCalendar(r io.Reader) (cal *ical.Calendar, err error) {
+	defer func() {
+		if v := recover(); v != nil {
+			cal, err = nil, fmt.Errorf("caldav: malformed iCalendar object: %v", v)
+		}
+	}()
+	return ical.NewDecoder(r).Decode()
+}
 
 func NewCalendarHomeSet(path string) webdav.BackendSuppliedHomeSet {
 	return &calendarHomeSet{Href: internal.Href{Path: path}}
